@@ -6060,8 +6060,10 @@ class FlowIRConcrete(object):
         if ret.get('command', {}).get('interpreter', None) is not None:
             ret['command']['expandArguments'] = 'none'
 
-        # VV: If this is a fully resolved flowir-configuration then store it in the cache
-        if need_fully_resolved_flowir:
+        # VV: If this is a fully resolved flowir-configuration then store it in the cache.
+        #     A lookup that tolerates type-conversion errors may hold values that were left unconverted: the label
+        #     does not record the flag, so such a result must not be served to later (strict) lookups
+        if need_fully_resolved_flowir and not ignore_convert_errors:
             self._cache[cache_label] = deep_copy(ret)
 
         return ret
